@@ -571,6 +571,17 @@ class World:
             p.execute("UPDATE queue_messages SET deliver_at=? WHERE id=? AND deliver_at='1970-01-01T00:00:00+00:00'", (orig_deliver_at, row_id))
         return mtype
 
+    def run_now(self, message: Any) -> None:
+        """Another worker handles `message` right now, to completion (used from inside a task body:
+        the RunTask handler holds no transaction while the task executes)."""
+        self.queue.push(message)
+        rid = self.q("SELECT MAX(id) FROM queue_messages")[0][0]
+        saved = (HOOKS.ctx, HOOKS.handler_base, self._in_deliver)
+        try:
+            self.deliver(int(rid))
+        finally:
+            HOOKS.ctx, HOOKS.handler_base, self._in_deliver = saved
+
     # -- observation ------------------------------------------------------------------------------------
     def snapshot(self) -> dict[str, Any]:
         wid = self.workflow_id
